@@ -662,9 +662,24 @@ class LLMRails:
             and options
             and options.rails.dialog is False
         ):
-            # We already have the first message with a context update, so we use that
-            messages[0]["content"]["bot_message"] = messages[-1]["content"]
+            bot_message = messages[-1]["content"]
             messages = messages[0:-1]
+
+            # The bot message belongs to the current turn: it is set right before the last
+            # user message (the context at the beginning of the conversation can be part
+            # of what has already been processed in a previous call).
+            user_idxs = [
+                idx for idx, msg in enumerate(messages) if msg["role"] == "user"
+            ]
+            if user_idxs:
+                messages = (
+                    messages[0 : user_idxs[-1]]
+                    + [{"role": "context", "content": {"bot_message": bot_message}}]
+                    + messages[user_idxs[-1] :]
+                )
+            else:
+                # We already have the first message with a context update, so we use that
+                messages[0]["content"]["bot_message"] = bot_message
 
         # TODO: Add support to load back history of events, next to history of messages
         #   This is important as without it, the LLM prediction is not as good.
